@@ -17,10 +17,11 @@ func init() {
 		Run:            runC35,
 		MinObligations: 25,
 		Technique:      "static analysis: operand provenance of every reward share (budget × part / whole with part and whole read from the same object, floor division), sibling agreement of the loop that sums the whole with the loop that hands out the parts, agreement of the accumulation weights on the voter side and the P-Rep side, once-per-voter structure of the payout loops",
-		LevelText:      "Decides the shape every reward has, which the budget bound and the proportionality clause rest on: (1) a voter's reward from a P-Rep is Mul(its accumulated votes for that P-Rep, that P-Rep's voter reward) followed by big.Int.Div (floor) by that same P-Rep's accumulated votes — the P-Rep object is the one looked up under the key of the accumulated amount — summed into a fresh accumulator; (2) a P-Rep's reward is Mul(total P-Rep reward, its accumulated power) floor-divided by the total accumulated power, the voter reward is that amount minus the commission taken from the same amount, and the wage is the per-P-Rep share total/electedCount (floor); (3) the loop that hands out P-Rep shares and the loop that sums the total accumulated power range over the same prefix of the ranking (stop at electedPRepCount), so the parts handed out are parts of the whole that was summed, and the whole passed to each share is that sum; (4) votes are accumulated with the same weight on both sides: amount × period into the voter's per-P-Rep total and into the P-Rep's total, with period = offsetLimit − offset for events and the term period for the initial state; (5) every voter is paid once: the bonding loop skips accounts that have a delegation (paid in the delegation loop), the event loop skips accounts already calculated, and both earlier loops mark accounts with events as calculated.",
+		LevelText:      "Decides the shape every reward has, which the budget bound and the proportionality clause rest on: (1) a voter's reward from a P-Rep is Mul(its accumulated votes for that P-Rep, that P-Rep's voter reward) followed by big.Int.Div (floor) by that same P-Rep's accumulated votes — the P-Rep object is the one looked up under the key of the accumulated amount — summed into a fresh accumulator; (2) a P-Rep's reward is Mul(total P-Rep reward, its accumulated power) floor-divided by the total accumulated power, the voter reward is that amount minus the commission taken from the same amount, and the wage is the per-P-Rep share total/electedCount (floor); (3) the loop that hands out P-Rep shares and the loop that sums the total accumulated power range over the same prefix of the ranking (stop at electedPRepCount), so the parts handed out are parts of the whole that was summed, and the whole passed to each share is that sum; (4) votes are accumulated with the same weight on both sides: amount × period into the voter's per-P-Rep total and into the P-Rep's total, with period = offsetLimit − offset for events and the term period for the initial state; (5) every voter is paid once: the bonding loop skips accounts that have a delegation (paid in the delegation loop), the event loop skips accounts already calculated, both earlier loops mark accounts with events as calculated, and `has a delegation` is decided on the same snapshot the delegation loop iterated.",
 		LevelNote:      "Not decided: the inequality Σ rewards ≤ fund itself (a statement about sums of floor divisions over all voting histories — it follows from these shapes by arithmetic that is not performed here), commission rates ≤ 100 %, and the conversion of the monthly fund to the term (fundToPeriodIScore).",
 		Explanation:    "C35 rules: voter-share (K5), prep-share (K5), same-set (K4 sibling loops), same-weight (K4), once-per-voter (K1/K2).",
 		Mutants: []Mutant{
+			{Name: "skip-test-on-other-snapshot", File: "icon/iiss/calculator/iiss4.go", Old: "\t\td, err := base.GetDelegating(addr)\n", New: "\t\td, err := r.Temp().GetDelegating(addr)\n", Desc: "an account that undelegates everything inside the term is paid in both loops"},
 			{Name: "voter-share-other-total", File: "icon/iiss/calculator/voter.go", Old: "\t\t\tr.Div(r, prep.AccumulatedVoted())", New: "\t\t\tr.Div(r, av)", Desc: "share divided by the voter's own votes: every voter gets the whole voter reward"},
 			{Name: "voter-share-prep-reward", File: "icon/iiss/calculator/voter.go", Old: "\t\t\tr := new(big.Int).Mul(av, prep.VoterReward())", New: "\t\t\tr := new(big.Int).Mul(av, prep.GetReward())", Desc: "voters share the P-Rep's own commission+wage instead of the voter reward"},
 			{Name: "voter-share-ceil", File: "icon/iiss/calculator/voter.go", Old: "\t\t\tr.Div(r, prep.AccumulatedVoted())", New: "\t\t\tr.Add(r, prep.AccumulatedVoted())\n\t\t\tr.Div(r, prep.AccumulatedVoted())", Desc: "rounding up: the sum of the shares can exceed the voter reward"},
@@ -375,6 +376,43 @@ func runC35(c *Ctx) {
 				}
 			}
 			c.check(okU, "C35.once-per-voter", "the reward computed is credited to the voter it was computed for", p.Pos(), "UpdateIScore(voter.Owner(), iscore)", "computed reward is not the one credited")
+		}
+		// the skip test consults the snapshot the delegation loop iterated
+		{
+			var src ssa.Value
+			for _, f := range c.calls(fn, byMethod("Filter")) {
+				_, fa := callArgs(f.Common())
+				if strings.Contains(render(fa[0]), "DelegatingKey") {
+					src, _ = callArgs(f.Common())
+				}
+			}
+			gd := c.calls(fn, byMethod("GetDelegating"))
+			okSrc := src != nil && len(gd) == 1
+			if okSrc {
+				r, _ := callArgs(gd[0].Common())
+				okSrc = r == src || render(r) == render(src)
+			}
+			why := "delegation loop source not found"
+			if src != nil && len(gd) == 1 {
+				r, _ := callArgs(gd[0].Common())
+				why = "the delegation loop iterates " + render(src) + " but the bonding loop asks " + render(r) + " whether the account has a delegation: an account whose delegation changed inside the term is paid in both loops"
+			}
+			c.check(okSrc, "C35.once-per-voter", "`already paid in the delegation loop` is decided on the snapshot that loop iterated", fn.Pos(), "same reader for Filter(DelegatingKey) and GetDelegating", why)
+			// likewise the bonding a delegator's reward includes comes from the snapshot the bonding loop iterates
+			var bsrc ssa.Value
+			for _, f := range c.calls(fn, byMethod("Filter")) {
+				_, fa := callArgs(f.Common())
+				if strings.Contains(render(fa[0]), "BondingKey") {
+					bsrc, _ = callArgs(f.Common())
+				}
+			}
+			gb := c.calls(fn, byMethod("GetBonding"))
+			okB := bsrc != nil && len(gb) == 1
+			if okB {
+				r, _ := callArgs(gb[0].Common())
+				okB = r == bsrc || render(r) == render(bsrc)
+			}
+			c.check(okB, "C35.once-per-voter", "the bond added in the delegation loop is read from the snapshot the bonding loop iterates", fn.Pos(), "same reader for Filter(BondingKey) and GetBonding", "the two loops partition the accounts on different snapshots")
 		}
 		c.check(nSkipC == 1, "C35.once-per-voter", "the event loop pays only accounts not yet calculated", fn.Pos(), "!IsCalculated(key)", "accounts with events are paid again in the event loop")
 		// loops 1 and 2 mark accounts that have events
